@@ -16,6 +16,11 @@ use verif_harness::line_loop;
 const HUGE: u64 = u64::MAX;
 
 fn main() {
+    // `impl_grp handlers`: the same protocol answered through the RESP command handlers
+    // (commands/consumer_groups.rs, commands/streams.rs) on a real StorageEngine.
+    if std::env::args().any(|a| a == "handlers") {
+        return handlers::run();
+    }
     line_loop(Stream::new(), |s, ws| {
         if ws == ["reset"] {
             *s = Stream::new();
@@ -189,4 +194,229 @@ fn step(s: &mut Stream, ws: &[&str]) -> Option<String> {
         }
         _ => return None,
     })
+}
+
+/// Handler-level mode: every operation is a RESP command given to the real `handle_*` functions.
+mod handlers {
+    use super::*;
+    use ferrous::protocol::RespFrame;
+    use ferrous::storage::commands::consumer_groups::*;
+    use ferrous::storage::commands::streams::{handle_xadd, handle_xdel};
+    use ferrous::storage::{GetResult, StorageEngine, Value};
+
+    struct H { storage: Arc<StorageEngine>, key: String, n: usize }
+
+    pub fn run() {
+        let h = H { storage: StorageEngine::new(), key: "s0".into(), n: 0 };
+        line_loop(h, |h, ws| {
+            if ws == ["reset"] {
+                h.n += 1;
+                h.key = format!("s{}", h.n);       // a fresh key = a fresh stream
+                return dump(h, "ok".into());
+            }
+            let r = catch_unwind(AssertUnwindSafe(|| step(h, ws)));
+            match r {
+                Ok(Some(reply)) => dump(h, reply),
+                Ok(None) => "bad-op".into(),
+                Err(_) => dump(h, "panic".into()),
+            }
+        });
+    }
+
+    fn stream(h: &H) -> Option<Stream> {
+        match h.storage.get(0, h.key.as_bytes()) {
+            Ok(GetResult::Found(Value::Stream(s))) => Some(s),
+            _ => None,
+        }
+    }
+    fn dump(h: &H, reply: String) -> String {
+        match stream(h) { Some(s) => with_dump(&s, reply), None => format!("{} ;; S .", reply) }
+    }
+    fn bulk(s: &str) -> RespFrame { RespFrame::BulkString(Some(Arc::new(s.as_bytes().to_vec()))) }
+    fn frames(parts: &[&str]) -> Vec<RespFrame> { parts.iter().map(|p| bulk(p)).collect() }
+    fn text(f: &RespFrame) -> Option<String> {
+        match f {
+            RespFrame::BulkString(Some(b)) | RespFrame::SimpleString(b) | RespFrame::Error(b) => Some(String::from_utf8_lossy(b).to_string()),
+            _ => None,
+        }
+    }
+    fn id_list(f: &RespFrame) -> Option<String> {
+        match f {
+            RespFrame::Array(Some(xs)) => {
+                let v: Option<Vec<String>> = xs.iter().map(|x| match x {
+                    // either a bare id (JUSTID) or [id, fields]
+                    RespFrame::Array(Some(e)) if !e.is_empty() => text(&e[0]),
+                    other => text(other),
+                }).collect();
+                let v = v?;
+                Some(if v.is_empty() { ".".into() } else { v.join("|") })
+            }
+            RespFrame::Array(None) => Some(".".into()),
+            _ => None,
+        }
+    }
+    fn is_err(f: &RespFrame, what: &str) -> bool { matches!(f, RespFrame::Error(b) if String::from_utf8_lossy(b).contains(what)) }
+    fn strip(s: &str) -> String { s[1..].to_string() }
+
+    fn step(h: &mut H, ws: &[&str]) -> Option<String> {
+        let key = h.key.clone();
+        let k = key.as_str();
+        let st = &h.storage;
+        // validate the request exactly as the API mode does (bad-op on malformed input)
+        let group_of = |w: &str| -> Option<String> { Some(gname(num(w)?)) };
+        let need_group = |g: &str| -> bool { stream(h).map(|s| s.get_consumer_group(g).is_some()).unwrap_or(false) };
+        Some(match ws {
+            ["add", id] => {
+                parse_id(id)?;
+                match handle_xadd(st, 0, &frames(&["XADD", k, id, "f", "v"])) {
+                    Ok(RespFrame::BulkString(Some(_))) => "ok".into(),
+                    _ => "err".into(),
+                }
+            }
+            ["del", ids] => {
+                let v = parse_ids(ids)?;
+                if v.is_empty() { return Some("0".into()); }
+                let mut p = vec!["XDEL".to_string(), k.to_string()];
+                p.extend(v.iter().map(show_id));
+                match handle_xdel(st, 0, &frames(&p.iter().map(|x| x.as_str()).collect::<Vec<_>>())) {
+                    Ok(RespFrame::Integer(n)) => format!("{}", n),
+                    _ => "err".into(),
+                }
+            }
+            ["create", g, id] => {
+                let g = group_of(g)?;
+                if *id != "$" { parse_id(id)?; }
+                match handle_xgroup(st, 0, &frames(&["XGROUP", "CREATE", k, &g, id, "MKSTREAM"])) {
+                    Ok(RespFrame::SimpleString(_)) => "ok".into(),
+                    Ok(ref f) if is_err(f, "BUSYGROUP") => "busy".into(),
+                    _ => "err".into(),
+                }
+            }
+            ["destroy", g] => {
+                let g = group_of(g)?;
+                match handle_xgroup(st, 0, &frames(&["XGROUP", "DESTROY", k, &g])) {
+                    Ok(RespFrame::Integer(n)) => format!("{}", n),
+                    _ => "err".into(),
+                }
+            }
+            ["setid", g, id] => {
+                let g = group_of(g)?;
+                if *id != "$" { parse_id(id)?; }
+                if !need_group(&g) { return Some("nogroup".into()); }
+                match handle_xgroup(st, 0, &frames(&["XGROUP", "SETID", k, &g, id])) {
+                    Ok(RespFrame::SimpleString(_)) => "ok".into(),
+                    _ => "err".into(),
+                }
+            }
+            ["createc", g, c] | ["delc", g, c] => {
+                let (g, c) = (group_of(g)?, cname(num(c)?));
+                if !need_group(&g) { return Some("nogroup".into()); }
+                let sub = if ws[0] == "createc" { "CREATECONSUMER" } else { "DELCONSUMER" };
+                match handle_xgroup(st, 0, &frames(&["XGROUP", sub, k, &g, &c])) {
+                    Ok(RespFrame::Integer(n)) => format!("{}", n),
+                    _ => "err".into(),
+                }
+            }
+            ["read", g, c, from, count, noack] => {
+                let (g, c) = (group_of(g)?, cname(num(c)?));
+                if *from != ">" { parse_id(from)?; }
+                let mut p: Vec<String> = vec!["XREADGROUP".into(), "GROUP".into(), g.clone(), c];
+                if *count != "-" { num(count)?; p.push("COUNT".into()); p.push(count.to_string()); }
+                match *noack { "0" => {}, "1" => p.push("NOACK".into()), _ => return None }
+                if !need_group(&g) { return Some("nogroup".into()); }
+                p.extend(["STREAMS".to_string(), k.to_string(), from.to_string()]);
+                match handle_xreadgroup(st, 0, &frames(&p.iter().map(|x| x.as_str()).collect::<Vec<_>>())) {
+                    Ok(RespFrame::Array(Some(res))) => match res.first() {
+                        None => ".".into(),
+                        Some(RespFrame::Array(Some(kv))) if kv.len() == 2 => id_list(&kv[1])?,
+                        _ => "err".into(),
+                    },
+                    _ => "err".into(),
+                }
+            }
+            ["ack", g, ids] => {
+                let g = group_of(g)?;
+                let v = parse_ids(ids)?;
+                if !need_group(&g) { return Some("nogroup".into()); }
+                if v.is_empty() { return Some("0".into()); }
+                let mut p = vec!["XACK".to_string(), k.to_string(), g];
+                p.extend(v.iter().map(show_id));
+                match handle_xack(st, 0, &frames(&p.iter().map(|x| x.as_str()).collect::<Vec<_>>())) {
+                    Ok(RespFrame::Integer(n)) => format!("{}", n),
+                    _ => "err".into(),
+                }
+            }
+            ["claim", g, c, idle, force, ids] => {
+                let (g, c) = (group_of(g)?, cname(num(c)?));
+                let idle = match *idle { "0" => "0", "huge" => "18446744073709551615", _ => return None };
+                let v = parse_ids(ids)?;
+                if !need_group(&g) { return Some("nogroup".into()); }
+                if v.is_empty() { return None; }
+                let mut p = vec!["XCLAIM".to_string(), k.to_string(), g, c, idle.to_string()];
+                p.extend(v.iter().map(show_id));
+                match *force { "0" => {}, "1" => p.push("FORCE".into()), _ => return None }
+                p.push("JUSTID".into());
+                match handle_xclaim(st, 0, &frames(&p.iter().map(|x| x.as_str()).collect::<Vec<_>>())) {
+                    Ok(f) => id_list(&f).unwrap_or_else(|| "err".into()),
+                    _ => "err".into(),
+                }
+            }
+            ["autoclaim", g, c, idle, start, count] => {
+                let (g, c) = (group_of(g)?, cname(num(c)?));
+                let idle = match *idle { "0" => "0", "huge" => "18446744073709551615", _ => return None };
+                parse_id(start)?; num(count)?;
+                if !need_group(&g) { return Some("nogroup".into()); }
+                match handle_xautoclaim(st, 0, &frames(&["XAUTOCLAIM", k, &g, &c, idle, start, "COUNT", count, "JUSTID"])) {
+                    Ok(RespFrame::Array(Some(r))) if r.len() == 2 => format!("{} {}", text(&r[0])?, id_list(&r[1])?),
+                    _ => "err".into(),
+                }
+            }
+            ["pending", g] => {
+                let g = group_of(g)?;
+                if !need_group(&g) { return Some("nogroup".into()); }
+                match handle_xpending(st, 0, &frames(&["XPENDING", k, &g])) {
+                    Ok(RespFrame::Array(Some(r))) if r.len() == 4 => {
+                        let n = match r[0] { RespFrame::Integer(n) => n, _ => return Some("err".into()) };
+                        let mn = text(&r[1]).unwrap_or_else(|| "-".into());
+                        let mx = text(&r[2]).unwrap_or_else(|| "-".into());
+                        let mut cons: Vec<(u64, i64)> = Vec::new();
+                        if let RespFrame::Array(Some(rows)) = &r[3] {
+                            for row in rows {
+                                if let RespFrame::Array(Some(cn)) = row {
+                                    if let (Some(name), RespFrame::Integer(c)) = (text(&cn[0]), &cn[1]) { cons.push((unname(&name), *c)); }
+                                }
+                            }
+                        }
+                        cons.sort();
+                        format!("{} {} {} {}", n, mn, mx, join_or_dot(cons.into_iter().map(|(c, n)| format!("{}={}", c, n)).collect()))
+                    }
+                    _ => "err".into(),
+                }
+            }
+            ["prange", g, start, end, count, c] => {
+                let g = group_of(g)?;
+                if *start != "-" { parse_id(start)?; }
+                if *end != "+" { parse_id(end)?; }
+                num(count)?;
+                let mut p = vec!["XPENDING".to_string(), k.to_string(), g.clone(), start.to_string(), end.to_string(), count.to_string()];
+                if *c != "-" { p.push(cname(num(c)?)); }
+                if !need_group(&g) { return Some("nogroup".into()); }
+                match handle_xpending(st, 0, &frames(&p.iter().map(|x| x.as_str()).collect::<Vec<_>>())) {
+                    Ok(RespFrame::Array(Some(rows))) => {
+                        let mut out = Vec::new();
+                        for row in rows {
+                            if let RespFrame::Array(Some(r)) = row {
+                                if let (Some(id), Some(cn), RespFrame::Integer(dc)) = (text(&r[0]), text(&r[1]), &r[3]) {
+                                    out.push(format!("{}:{}:{}", id, strip(&cn), dc));
+                                }
+                            }
+                        }
+                        join_or_dot(out)
+                    }
+                    _ => "err".into(),
+                }
+            }
+            _ => return None,
+        })
+    }
 }
